@@ -411,6 +411,46 @@ func c14UnknownStatus(chk *fw.Check) int {
 	return n
 }
 
+// c14TwoModulesSameDuration: two checkers of the process with the same default_cache_duration. The first obtains a
+// "good" for a certificate of the CA; the second is asked about a certificate with the same serial number of the
+// re-keyed CA (same name, other key) while the responder is down, ocsp_aia_strict on: it has no answer of its own and
+// says so - what another checker cached is not its answer.
+func c14TwoModulesSameDuration(chk *fw.Check) int {
+	p := world.Std()
+	n := 0
+	for _, dur := range []time.Duration{10 * time.Minute, time.Hour} {
+		n++
+		dur := dur
+		seqWorld(func() {
+			net := world.NewNet()
+			net.Routes[c14URLA] = &world.Behaviour{Label: "ocsp", Fn: func(req *http.Request, body []byte) (int, []byte, error) {
+				r, err := xocsp.ParseRequest(body)
+				if err != nil {
+					return 400, nil, nil
+				}
+				return 200, world.BuildOCSP(world.OCSPAnswer{Status: xocsp.Good, Serial: r.SerialNumber, Issuer: p.CA, Signer: p.CA, ThisUpdate: vsched.Now().Add(-time.Minute)}), nil
+			}}
+			a, b := NewOW(true, dur, nil, net), NewOW(true, dur, nil, net)
+			la := world.Leaf(p.CA, bi(5300), nil, []string{c14URLA})
+			lb := world.Leaf(p.Sibling, bi(5300), nil, []string{c14URLA})
+			if v := a.Lookup(la, world.Chain(la, p.CA, p.Root)); v.String() != "OK" {
+				chk.Violation("C14|harness|two-modules-same-duration", "first checker: "+v.String()+" "+v.Err, nil)
+				return
+			}
+			net.Down(c14URLA)
+			before := len(net.Hits)
+			v := b.Lookup(lb, world.Chain(lb, p.Sibling, p.Root))
+			if v.String() != "ERR" {
+				chk.Violation(fmt.Sprintf("C14|hit-for-another-certificate|status-cached-by-another-checker|default=%v", dur),
+					fmt.Sprintf("two strict checkers with default_cache_duration %v: the first cached 'good' for serial 5300 of the CA; the second, asked about serial 5300 of the re-keyed CA with the responder down (%d request(s)), reads %s instead of reporting that it has no answer", dur, len(net.Hits)-before, v), nil)
+			}
+			a.Chk.Cleanup()
+			b.Chk.Cleanup()
+		})
+	}
+	return n
+}
+
 func c14TwoModules(chk *fw.Check) int {
 	p := world.Std()
 	n := 0
@@ -603,7 +643,7 @@ func RunC14(tier string, args []string) int {
 	}
 	samples = append(samples, map[string]interface{}{"config": "default=10m nextUpdate=absent", "history": []string{"lookup(c1,V1)", "advance(L/2)", "lookup(c1,V1)", "advance(L/2)", "flipA(c1->revoked)", "lookup(c1,V1)"}})
 	samples = append(samples, map[string]interface{}{"config": "default=10m nextUpdate=absent", "history": []string{"lookup(c1',V1)", "flipA(c1->revoked)", "lookup(c1,V2)"}})
-	pairCases := c14IssuerPairs(chk) + c14TwoModules(chk) + c14Reload(chk) + c14UnknownStatus(chk)
+	pairCases := c14IssuerPairs(chk) + c14TwoModules(chk) + c14Reload(chk) + c14UnknownStatus(chk) + c14TwoModulesSameDuration(chk)
 	// all schedules (<= 2 preemptions) of two checkers with lifetimes 1h and 0 asked about one certificate at the same
 	// moment: what the zero-duration checker holds afterwards is nothing
 	srep := exploreInProcess(chk, "C14", ocspTwoLifetimesScenario("C14"), 2)
